@@ -1142,7 +1142,7 @@ mod v_socket_dhcpv4 {
     // ------------------------------------------------------------------ 6. history from Socket::new() (thorough tier)
     /// discover-dispatch -> OFFER -> [request-dispatch] -> ACK -> later dispatch, symbolic fields and time advances.
     /// Ghost: which client messages reached the device.
-    fn history(with_request_dispatch: bool) -> (bool, bool, bool) {
+    fn history(with_request_dispatch: bool) -> (bool, bool, bool, bool) {
         let mut dev = NullDev { medium: Medium::Ethernet, mtu: 1514, checksum: ChecksumCapabilities::ignored() };
         let t0: i64 = kani::any();
         kani::assume(t0 >= 0 && t0 < (1i64 << 40));
@@ -1178,6 +1178,7 @@ mod v_socket_dhcpv4 {
         s.process(iface.context(), &ip1, &udp_repr, &b1[..n1]);
         crate::vdump!("T1={} MSG1 type={} xid={:?} ch={:?} yi={:?} sid={:?} -> {:?}", t1, f1.mt, f1.xid, f1.ch, f1.yi, f1.sid, s.state);
         assert!(s.poll().is_none(), "prop:c18_configured_only_with_request_outstanding");
+        let offer_taken = matches!(s.state, ClientState::Requesting(_));
 
         // step 3: REQUEST
         let t2: i64 = kani::any();
@@ -1252,13 +1253,13 @@ mod v_socket_dhcpv4 {
         if configured && !expired && e3.seen {
             assert!(e3.mt == DhcpMessageType::Request && e3.src == Ipv4Address::from_octets(f2.yi), "prop:c18_renewal_from_leased_address");
         }
-        (configured, expired, configured && !expired && e3.seen && e3.dst == Ipv4Address::BROADCAST)
+        (configured, expired, configured && !expired && e3.seen && e3.dst == Ipv4Address::BROADCAST, offer_taken)
     }
 
     // @harness props=C18 cfg=KD tier=t to=3000 mem=12 unwind=12 opts=nomem,fs320 covers=3 funcs=dhcpv4::Socket::new;dhcpv4::Socket::dispatch;dhcpv4::Socket::process;dhcpv4::Socket::poll;dhcpv4::Socket::poll_at;Interface::poll_maintenance bounds=history_new();dispatch;server_message;dispatch;server_message;dispatch_with_4_symbolic_time_advances;_both_messages_layout_{type,server-id,lease,mask,router}_all_values_symbolic;_default_retry_config;_emit_always_Ok
     #[kani::proof]
     pub(crate) fn dhcp_history() {
-        let (configured, expired, rebinding) = history(true);
+        let (configured, expired, rebinding, _offer_taken) = history(true);
         kani::cover!(configured && !expired, "configured and still within the lease");
         kani::cover!(configured && expired, "configured, then the lease expired");
         kani::cover!(rebinding, "rebinding broadcast after T2");
@@ -1268,8 +1269,8 @@ mod v_socket_dhcpv4 {
     // @harness props=C18 cfg=KD tier=t kind=finding to=3000 mem=12 unwind=12 opts=nomem,fs320 covers=1 funcs=dhcpv4::Socket::new;dhcpv4::Socket::dispatch;dhcpv4::Socket::process;dhcpv4::Socket::poll bounds=history_new();dispatch;server_message;server_message;dispatch;_both_messages_layout_{type,server-id,lease,mask,router}_all_values_symbolic;_default_retry_config
     #[kani::proof]
     pub(crate) fn finding_dhcp_history_ack_without_request() {
-        let (configured, _expired, _rebinding) = history(false);
-        kani::cover!(configured, "configured without a REQUEST");
+        let (configured, _expired, _rebinding, offer_taken) = history(false);
+        kani::cover!(offer_taken && !configured, "OFFER accepted, second message did not configure the client");
     }
 
     // ------------------------------------------------------------------ must-fail twin
